@@ -130,3 +130,19 @@ let () =
   register "cli_overlap" (fun a ->
       let r = fields_of (List.nth a 0) and c = fields_of (List.nth a 1) in
       Printf.sprintf "ok %d %d" (if M.overlapping_config r c then 1 else 0) (if M.clap_accepts (r @ c) then 1 else 0))
+;;
+(* cli_known nonutf8 <config read 0/1> <real word hex | !>*          -> ok 0/1
+   cli_known ddash <nreal> <real word hex>* <config word hex>*       -> ok 0/1
+   cli_known theme <cli token> <shipped theme hex>*                  -> ok 0/1 *)
+let () =
+  register "cli_known" (fun a ->
+      match a with
+      | "nonutf8" :: rd :: real ->
+        pr_bool (M.nonutf8_argv_with_config (List.map (fun s -> if s = "!" then None else Some (bytes_of_hex s)) real) (rd = "1"))
+      | "ddash" :: n :: rest ->
+        let n = int_of_string n in
+        pr_bool (M.double_dash_config (List.map bytes_of_hex (List.filteri (fun i _ -> i < n) rest))
+                   (List.map bytes_of_hex (List.filteri (fun i _ -> i >= n) rest)))
+      | "theme" :: tok :: shipped -> pr_bool (M.unknown_theme (List.map bytes_of_hex shipped) (parse_cli tok))
+      | _ -> "err bad cli_known")
+
